@@ -687,6 +687,8 @@ type sgSub struct {
 	coq       string
 	coqs      []string // one descriptor per message (multi-message transactions)
 	wrap      string   // wrapped submissions: the Coq term of the wrapper
+	flags     []string // transactions with contract creations: one "mk_cflag creates create_ok" per message
+	op        string   // account-type operations: "<kind> <target>%N"
 	seqs      []uint64
 }
 
@@ -778,9 +780,18 @@ func (c *sgCase) coq() string {
 			} else if s.Who >= 0 {
 				who = fmt.Sprintf("(Some [%d%%N])", s.Who)
 			}
-			sub := fmt.Sprintf("Direct %s %s", coqList(units), coqBool(s.OtherOK))
-			if s.wrap != "" {
-				sub = fmt.Sprintf("Wrapped (%s) %s %s", s.wrap, coqList(units), coqBool(s.OtherOK))
+			sub := fmt.Sprintf("ESub (Direct %s %s)", coqList(units), coqBool(s.OtherOK))
+			switch {
+			case s.wrap != "":
+				sub = fmt.Sprintf("ESub (Wrapped (%s) %s %s)", s.wrap, coqList(units), coqBool(s.OtherOK))
+			case s.flags != nil: // an Ethereum-route transaction with contract creations: (message, creates / create_ok) pairs
+				pairs := []string{}
+				for i, u := range units {
+					pairs = append(pairs, fmt.Sprintf("(%s, %s)", u, s.flags[i]))
+				}
+				sub = fmt.Sprintf("ECreating %s %s", coqList(pairs), coqBool(s.OtherOK))
+			case s.op != "": // an account-type operation: its kind, its target, the signed unit of the transaction that performs it
+				sub = fmt.Sprintf("EAccountOp %s %s %s", s.op, coqList(units), coqBool(s.OtherOK))
 			}
 			steps = append(steps, fmt.Sprintf("(%s, %s, %s)", sub, who, coqU64s(seqs)))
 		}
@@ -928,12 +939,22 @@ func (t sgTx) carried() []sgMsgSpec {
 // signed with the same nonce (a replacement); mut = a field changed AFTER signing (the recipient), so
 // that the signature recovers to a stranger; fund = that stranger exists, is funded and has this nonce
 // as its sequence, so that the altered message is executable -- on the stranger's behalf.
+// create != "" = a contract creation (To = nil, no value): "ok" = init code 0x00 (deploys empty code), "fail" =
+// init code 0xfe (the EVM execution fails), "store" = a constructor that writes a storage slot and returns a
+// one-byte runtime.
 type sgMsgSpec struct {
-	From  int    `json:"from"`
-	Nonce uint64 `json:"nonce"`
-	Alt   int    `json:"alt,omitempty"`
-	Mut   bool   `json:"mut,omitempty"`
-	Fund  bool   `json:"fund,omitempty"`
+	From   int    `json:"from"`
+	Nonce  uint64 `json:"nonce"`
+	Alt    int    `json:"alt,omitempty"`
+	Mut    bool   `json:"mut,omitempty"`
+	Fund   bool   `json:"fund,omitempty"`
+	Create string `json:"create,omitempty"`
+}
+
+var sgInitCode = map[string][]byte{
+	"ok":    {0x00},
+	"fail":  {0xfe},
+	"store": {0x60, 0x2a, 0x60, 0x00, 0x55, 0x60, 0x00, 0x60, 0x00, 0x53, 0x60, 0x01, 0x60, 0x00, 0xf3},
 }
 
 type sgEthSubmit struct {
@@ -1387,6 +1408,11 @@ func (w *sgWorld) runBlocks(c *sgCase, r *Rng) {
 				to := accts[(i+1)%na].Addr
 				f.To = &to
 				f.Type = map[string]int{"eth-legacy": 0, "eth-accesslist": 1, "eth-dynamicfee": 2}[route]
+				if r.Chance(25) { // a contract creation (deploys empty code / fails / stores a slot)
+					kind := []string{"ok", "fail", "store"}[r.Intn(3)]
+					f.To, f.Value, f.Data, f.Gas = nil, new(big.Int), sgInitCode[kind], 200000
+					c.tags["blocks:creation:"+kind] = true
+				}
 				tx, err := ethtypes.SignTx(f.build(), w.Signer, x.Key)
 				if err != nil {
 					panic(err)
@@ -1524,7 +1550,7 @@ func sgStartChain() (*app.Haqq, tmproto.Header, sdk.Context) {
 }
 
 func sgSpecKey(sp sgMsgSpec) string {
-	return fmt.Sprintf("%d/%d/%d/%v", sp.From, sp.Nonce, sp.Alt, sp.Mut)
+	return fmt.Sprintf("%d/%d/%d/%v/%s", sp.From, sp.Nonce, sp.Alt, sp.Mut, sp.Create)
 }
 
 // sgGenMulti writes the script of a "multi" case into the input: 2-3 sender accounts, 5-9 Cosmos
@@ -1649,6 +1675,80 @@ func sgGenMulti(in *sgInput) {
 	}
 	if ntx > 3 && r.Chance(50) {
 		in.Boundary = 1 + r.Intn(ntx-1)
+	}
+}
+
+// sgGenCreates writes the script of a "multi" case with contract creations: one or two senders; 2-3 rounds, each a
+// batch of 1-4 messages -- calls and creations (init code that deploys, that fails, a constructor that stores) at
+// every position, nonces in order -- followed by re-deliveries of every message alone, of every proper suffix and
+// prefix of the batch and of a random sub-batch, in random order.
+func sgGenCreates(in *sgInput) {
+	r := NewRng(in.Seed ^ 0x63726561746573)
+	na := 1 + r.Intn(2)
+	sim := make([]uint64, na)
+	for i := range sim {
+		sim[i] = uint64(r.Intn(4))
+		if r.Chance(5) {
+			sim[i] = 1 << 40
+		}
+	}
+	in.Seq0 = append([]uint64{}, sim...)
+	kinds := []string{"", "ok", "fail", "store"}
+	weights := []int{45, 30, 10, 15}
+	kind := func() string {
+		x := r.Intn(100)
+		for i, w := range weights {
+			if x < w {
+				return kinds[i]
+			}
+			x -= w
+		}
+		return ""
+	}
+	rounds := 2 + r.Intn(2)
+	for q := 0; q < rounds; q++ {
+		n := 1 + r.Intn(4)
+		tx := []sgMsgSpec{}
+		hasCreate := false
+		for k := 0; k < n; k++ {
+			i := r.Intn(na)
+			sp := sgMsgSpec{From: i, Nonce: sim[i], Create: kind()}
+			hasCreate = hasCreate || sp.Create != ""
+			tx = append(tx, sp)
+			sim[i]++
+		}
+		if !hasCreate && r.Chance(85) {
+			tx[r.Intn(n)].Create = []string{"ok", "store"}[r.Intn(2)]
+		}
+		in.Txs = append(in.Txs, sgTx{Msgs: tx})
+		again := [][]sgMsgSpec{}
+		for k := range tx {
+			again = append(again, []sgMsgSpec{tx[k]})
+			if k > 0 {
+				again = append(again, append([]sgMsgSpec{}, tx[k:]...), append([]sgMsgSpec{}, tx[:k]...))
+			}
+		}
+		if n > 2 {
+			sub := []sgMsgSpec{}
+			for k := range tx {
+				if r.Bool() {
+					sub = append(sub, tx[k])
+				}
+			}
+			if len(sub) > 0 {
+				again = append(again, sub)
+			}
+		}
+		for k := len(again) - 1; k > 0; k-- {
+			j := r.Intn(k + 1)
+			again[k], again[j] = again[j], again[k]
+		}
+		for _, t := range again {
+			in.Txs = append(in.Txs, sgTx{Msgs: t})
+		}
+	}
+	if n := len(in.Txs); n > 3 && r.Chance(50) {
+		in.Boundary = 1 + r.Intn(n-1)
 	}
 }
 
@@ -1794,13 +1894,18 @@ type sgSigned struct {
 	rec   int      // interned account the signature recovers to, -1 = none
 	desc  string
 	label string
+	// contract creations: to = the address of the contract (CreateAddress(sender, nonce)), value = 0
+	create string
 }
 
 func (w *sgWorld) runMulti(c *sgCase, in *sgInput) {
 	if len(in.Txs) == 0 {
-		if in.Kind == "wrapped" {
+		switch {
+		case in.Kind == "wrapped":
 			sgGenWrapped(in)
-		} else {
+		case in.Seed%5 < 2: // two multi cases in five: batches with contract creations and their re-deliveries
+			sgGenCreates(in)
+		default:
 			sgGenMulti(in)
 		}
 	}
@@ -1846,15 +1951,22 @@ func (w *sgWorld) runMulti(c *sgCase, in *sgInput) {
 		to := common.BytesToAddress(rr.Bytes(20))
 		f := sgEthFields{Type: rr.Intn(3), ChainID: big.NewInt(sgThisEIP155), Nonce: sp.Nonce, GasPrice: price, FeeCap: price, Tip: big.NewInt(1),
 			Gas: 100000, To: &to, Value: big.NewInt(int64(1 + rr.Intn(sgTransferUnit)))}
+		if code, ok := sgInitCode[sp.Create]; ok {
+			f.To, f.Value, f.Data, f.Gas = nil, new(big.Int), code, 200000
+			to = crypto.CreateAddress(accts[sp.From].Addr, sp.Nonce)
+		}
 		tx, err := ethtypes.SignTx(f.build(), w.Signer, accts[sp.From].Key)
 		if err != nil {
 			panic(err)
 		}
 		label := fmt.Sprintf("account%d/nonce%d", sp.From, sp.Nonce)
+		if f.To == nil {
+			label += "/create-" + sp.Create
+		}
 		if sp.Alt > 0 {
 			label += fmt.Sprintf("/replacement%d", sp.Alt)
 		}
-		if sp.Mut { // the recipient is changed after signing: same V, R, S over other content
+		if sp.Mut && f.To != nil { // the recipient is changed after signing: same V, R, S over other content
 			x := sgFieldsOf(tx)
 			to = common.BytesToAddress(rr.Bytes(20))
 			x.To = &to
@@ -1862,6 +1974,9 @@ func (w *sgWorld) runMulti(c *sgCase, in *sgInput) {
 			label += "/recipient-altered-after-signing"
 		}
 		g := &sgSigned{spec: sp, tx: tx, hash: tx.Hash().Hex()[:12], to: to, value: tx.Value(), label: label}
+		if f.To == nil {
+			g.create = sp.Create
+		}
 		g.cost = new(big.Int).Add(tx.Value(), new(big.Int).Mul(price, new(big.Int).SetUint64(tx.Gas())))
 		g.desc, g.rec = w2.ethDescriptor(c, tx)
 		signed[key] = g
@@ -1888,6 +2003,66 @@ func (w *sgWorld) runMulti(c *sgCase, in *sgInput) {
 	}
 	h := sgHist{Init: c.snapshot(ctx, a)}
 	execTotal := map[string]int{}
+
+	// ---- how often a signed message executed, counted on the state.  A call pays its private recipient.  A
+	// contract creation leaves a contract account at CreateAddress(sender, nonce); a creation whose EVM execution
+	// fails (or whose contract account was there before) leaves nothing but the sender's payment, so for creations
+	// the count is the number of times the message stands in an ACCEPTED transaction (DeliverTx processes a
+	// transaction as a whole), cross-checked with the contract account.
+	type sgPre struct {
+		bal    *big.Int
+		exists bool
+	}
+	snapTo := func(ms []*sgSigned) map[string]sgPre {
+		out := map[string]sgPre{}
+		for _, g := range ms {
+			to := sdk.AccAddress(g.to.Bytes())
+			out[g.hash] = sgPre{bal: sgBal(ctx, a, to), exists: a.AccountKeeper.GetAccount(ctx, to) != nil}
+		}
+		return out
+	}
+	countExecs := func(what string, ms []*sgSigned, pre map[string]sgPre, accepted bool) (map[string]int, map[string]bool, bool) {
+		execs, created := map[string]int{}, map[string]bool{}
+		occ := map[string]int{}
+		for _, g := range ms {
+			occ[g.hash]++
+		}
+		anyExec := false
+		for _, g := range ms {
+			if _, ok := execs[g.hash]; ok {
+				continue
+			}
+			to := sdk.AccAddress(g.to.Bytes())
+			if g.create != "" {
+				created[g.hash] = !pre[g.hash].exists && a.AccountKeeper.GetAccount(ctx, to) != nil
+				n := 0
+				switch {
+				case accepted:
+					n = occ[g.hash]
+				case created[g.hash]:
+					n = 1
+				}
+				if accepted && g.create != "fail" && !pre[g.hash].exists && !created[g.hash] {
+					c.tags["create:accepted-without-contract"] = true
+				}
+				if created[g.hash] && g.create == "fail" {
+					c.tags["create:failing-init-code-left-a-contract"] = true
+				}
+				execs[g.hash] = n
+				anyExec = anyExec || n > 0
+				c.tags[fmt.Sprintf("create:%s:created=%v", g.create, created[g.hash])] = true
+				continue
+			}
+			d := new(big.Int).Sub(sgBal(ctx, a, to), pre[g.hash].bal)
+			q, rem := new(big.Int).QuoRem(d, g.value, new(big.Int))
+			if rem.Sign() != 0 || d.Sign() < 0 || !q.IsInt64() {
+				c.fail("%s: the recipient of %s received %s, not a multiple of the signed value %s", what, g.label, d, g.value)
+			}
+			execs[g.hash] = int(q.Int64())
+			anyExec = anyExec || q.Sign() > 0
+		}
+		return execs, created, anyExec
+	}
 
 	// ---- a Cosmos transaction that carries signed Ethereum messages on a route that is not theirs
 	sink := sdk.AccAddress(NewRng(in.Seed ^ 0x73696e6b).Bytes(20))
@@ -2048,10 +2223,7 @@ func (w *sgWorld) runMulti(c *sgCase, in *sgInput) {
 			}
 		}
 		pre, preBal := c.snapshot(ctx, a), bals()
-		preTo := map[string]*big.Int{}
-		for _, g := range carried {
-			preTo[g.hash] = sgBal(ctx, a, sdk.AccAddress(g.to.Bytes()))
-		}
+		preTo := snapTo(carried)
 		// ---- the real ante handler on a discarded branch (error class), then the real DeliverTx
 		bctx, _ := ctx.CacheContext()
 		if in.Seed%3 == 0 {
@@ -2088,21 +2260,8 @@ func (w *sgWorld) runMulti(c *sgCase, in *sgInput) {
 			c.tags["wrapped:plain-cosmos-tx:"+wr.Route+":"+class] = true
 			return
 		}
-		// ---- how often every carried message executed: its private recipient's balance
-		execs := map[string]int{}
-		anyExec := false
-		for _, g := range carried {
-			if _, ok := execs[g.hash]; ok {
-				continue
-			}
-			d := new(big.Int).Sub(sgBal(ctx, a, sdk.AccAddress(g.to.Bytes())), preTo[g.hash])
-			q, rem := new(big.Int).QuoRem(d, g.value, new(big.Int))
-			if rem.Sign() != 0 || d.Sign() < 0 || !q.IsInt64() {
-				c.fail("%s: the recipient of %s received %s, not a multiple of the signed value %s", what, g.label, d, g.value)
-			}
-			execs[g.hash] = int(q.Int64())
-			anyExec = anyExec || q.Sign() > 0
-		}
+		// ---- how often every carried message executed: its private recipient's balance / its contract account
+		execs, _, anyExec := countExecs(what, carried, preTo, accepted)
 		// ---- the property.  "The account's current sequence number" = its sequence when the carrying
 		// transaction is submitted (plus its earlier messages in it), as for the Ethereum route.
 		cur := append([]uint64{}, pre...)
@@ -2260,10 +2419,7 @@ func (w *sgWorld) runMulti(c *sgCase, in *sgInput) {
 			continue
 		}
 		pre, preBal := c.snapshot(ctx, a), bals()
-		preTo := map[string]*big.Int{}
-		for _, g := range msgs {
-			preTo[g.hash] = sgBal(ctx, a, sdk.AccAddress(g.to.Bytes()))
-		}
+		preTo := snapTo(msgs)
 		// ---- what the property says about this transaction (walk over the messages with the sequences as they are)
 		bad, cat := "", "in-order"
 		{
@@ -2303,21 +2459,8 @@ func (w *sgWorld) runMulti(c *sgCase, in *sgInput) {
 		res := a.DeliverTx(abci.RequestDeliverTx{Tx: bz})
 		accepted := res.Code == 0
 		post, postBal := c.snapshot(ctx, a), bals()
-		// how often every signed message executed: its private recipient's balance
-		execs := map[string]int{}
-		anyExec := false
-		for _, g := range msgs {
-			if _, ok := execs[g.hash]; ok {
-				continue
-			}
-			d := new(big.Int).Sub(sgBal(ctx, a, sdk.AccAddress(g.to.Bytes())), preTo[g.hash])
-			q, rem := new(big.Int).QuoRem(d, g.value, new(big.Int))
-			if rem.Sign() != 0 || d.Sign() < 0 || !q.IsInt64() {
-				c.fail("%s: the recipient of %s received %s, not a multiple of the signed value %s", what, g.label, d, g.value)
-			}
-			execs[g.hash] = int(q.Int64())
-			anyExec = anyExec || q.Sign() > 0
-		}
+		// how often every signed message executed: its private recipient's balance / its contract account
+		execs, created, anyExec := countExecs(what, msgs, preTo, accepted)
 		var whos []int
 		executed := []int{}
 		{
@@ -2423,8 +2566,24 @@ func (w *sgWorld) runMulti(c *sgCase, in *sgInput) {
 		if len(log) > 140 {
 			log = log[:140]
 		}
+		var flags []string
+		for _, g := range msgs {
+			if g.create != "" {
+				flags = make([]string, len(msgs))
+				break
+			}
+		}
+		for k, g := range msgs {
+			if flags != nil {
+				flags[k] = "no_creation"
+				if g.create != "" {
+					flags[k] = fmt.Sprintf("(mk_cflag true %s)", coqBool(created[g.hash]))
+					c.tags[fmt.Sprintf("multi:creation-at-%d-of-%d", k, len(msgs))] = true
+				}
+			}
+		}
 		h.Steps = append(h.Steps, sgSub{What: what + ":" + cat, Class: class, Who: who, OtherOK: modelled, Msgs: labels, Whos: whos, Executed: executed,
-			SeqBefore: pre, SeqAfter: post, Deliver: fmt.Sprintf("code %d %s", res.Code, log), coqs: descs, seqs: post})
+			SeqBefore: pre, SeqAfter: post, Deliver: fmt.Sprintf("code %d %s", res.Code, log), coqs: descs, flags: flags, seqs: post})
 		c.tags["multi:"+cat+":"+class] = true
 		c.tags[fmt.Sprintf("multi:%d-msgs", len(msgs))] = true
 	}
